@@ -18,7 +18,7 @@ def gen_cfg(rng):
         cfg["starts"] = rng.sample(nodes, rng.randint(0, min(2, len(nodes))))
         cfg["ends"] = rng.sample(nodes, rng.randint(0, min(2, len(nodes))))
     if rng.random() < 0.25:
-        cfg["lengths"] = [[u, v, rng.choice(["1", "2", "3", "5", "1/2"])] for (u, v) in edges if rng.random() < 0.8]
+        cfg["lengths"] = [[u, v, rng.choice(["0", "1", "2", "3", "5", "1/2"])] for (u, v) in edges if rng.random() < 0.8]
     if rng.random() < 0.55:
         cfg["constraints"] = [[list(e) for e in c] for c in gen.subpaths(rng, nodes, edges, contiguous=rng.random() < 0.7)]
         r = rng.random()
@@ -26,7 +26,7 @@ def gen_cfg(rng):
             cfg["coverage"] = rng.choice(["1/2", "3/4", "1/4"])
         elif r < 0.65:
             if cfg["lengths"] is None:
-                cfg["lengths"] = [[u, v, rng.choice(["1", "2", "3", "5"])] for (u, v) in edges if rng.random() < 0.8]
+                cfg["lengths"] = [[u, v, rng.choice(["0", "1", "2", "3", "5"])] for (u, v) in edges if rng.random() < 0.8]
             cfg["coverage_length"] = rng.choice(["1", "1/2", "3/4"])
     r = rng.random()
     if r < 0.3:
